@@ -18,7 +18,8 @@ def gen_cases(ck: Check, n: int):
               ({"a": {"b": 1}}, {"a": 5}), ({"a": 5}, {"a": {"b": 1}}), ({"a": [1]}, {"a": [2]}),
               ({"a.b": 1, "a": {"b": 2}}, {"a.b": {"c": 1}, "a": {"b": {"d": 1}}}),
               ({"a": {"b": {"c": {"d": 1, "e": 2}}}}, {"a": {"b": {"c": {"d": {"x": 1}}, "f": None}}}),
-              ({"a": {}}, {"a": {}}), ({"a": None}, {"a": {"x": 1}}), ({"a": {"x": 1}}, {"a": None})]
+              ({"a": {}}, {"a": {}}), ({"a": None}, {"a": {"x": 1}}), ({"a": {"x": 1}}, {"a": None}),
+              ({"a": 1, "b": {"c": 0}}, {"a": True, "b": {"c": False}}), ({"a": True}, {"a": 1}), ({"a": [1]}, {"a": [True]})]
     for i in range(n):
         r = ck.rng("case", i)
         d = r.randrange(0, 6)
@@ -78,7 +79,7 @@ def oracle(case, ob):
         return "the second argument was modified"
     if not ob["fresh"]:
         return "the result is not a new dictionary"
-    if ob["result"] != spec_merge(o, v):
+    if ob["result"] != spec_merge(o, v) or trees.canon(ob["result"]) != trees.canon(spec_merge(o, v)):
         return "wrong merge result"
     return None
 
